@@ -29,7 +29,8 @@ RULE = ("job = seed -> scenario (version x flavour x options incl. client "
         "= the deviation was actually emitted and the victim reached a "
         "verdict"
         " The exhaustive grid also inserts copies (byte snapshots) of the peer's own first messages and a PROTECTED change_cipher_spec; abort-point oracle: after the first out-of-place message the victim may only send a fatal alert (a warning alert followed by carrying on is a violation)."
-        ' Further inserted / replacing records: warning alert no_certificate, empty application_data; scenarios "certificate requested, client has none" and a 0-RTT offering client negotiated down to TLS 1.2 (early-data window).')
+        ' Further inserted / replacing records: warning alert no_certificate, empty application_data; scenarios "certificate requested, client has none" and a 0-RTT offering client negotiated down to TLS 1.2 (early-data window).'
+        ' prot_ccs_pad: protected CCS carrying TLS 1.3 record padding.')
 LEVEL_TEXT = ("Seeded search over single deviations of every message index of "
               "the drawn handshake flavours; the legality table is written "
               "from the RFCs (ambiguous cases yield no verdict), the peer's "
@@ -117,9 +118,9 @@ def make_extra(kind, ver, captured):
         return M.HelloRequest().create()
     if kind == "ccs":
         return M.ChangeCipherSpec().create()
-    if kind == "prot_ccs":
+    if kind in ("prot_ccs", "prot_ccs_pad"):
         if tuple(ver) >= (3, 4):
-            return byz.ProtectedCCS()
+            return byz.ProtectedCCS(pad=0 if kind == "prot_ccs" else 3)
         return M.ChangeCipherSpec().create()
     if kind == "key_update":
         return M.KeyUpdate().create(0)
@@ -159,12 +160,13 @@ def make_extra(kind, ver, captured):
 
 EXTRAS = ["ccs", "hello_request", "key_update", "nst", "finished", "shd",
           "appdata", "copy", "empty_cert", "cert_req", "prot_ccs",
-          "empty_appdata", "alert_no_cert"]
+          "empty_appdata", "alert_no_cert", "prot_ccs_pad"]
 EXTRA_TYPE = {"ccs": G.CCS, "hello_request": G.HELLO_REQUEST,
               "key_update": G.KEY_UPDATE, "nst": G.NST,
               "finished": G.FINISHED, "shd": G.SHD, "appdata": G.APPDATA,
               "empty_cert": G.CERT, "cert_req": G.CERT_REQ,
-              "prot_ccs": G.CCS, "empty_appdata": G.APPDATA,
+              "prot_ccs": G.CCS, "prot_ccs_pad": G.CCS,
+              "empty_appdata": G.APPDATA,
               "alert_no_cert": G.ALERT_NOCERT}
 
 
@@ -381,7 +383,7 @@ def run(job, streams=None):
     vo = oc if victim == "c" else os_
     po = os_ if victim == "c" else oc
     eps = {"c": pair.c, "s": pair.s}
-    if extra_kind == "prot_ccs" and made and \
+    if extra_kind in ("prot_ccs", "prot_ccs_pad") and made and \
             getattr(made[0], "was_protected", None):
         # a protected change_cipher_spec is never acceptable (RFC 8446 s5)
         legal = False
